@@ -114,11 +114,11 @@ def install_move_hooks():
     orig_move, orig_traverse, orig_oos = vso.move, rt.traverse, vso._go_out_of_service_on_empty
 
     @functools.wraps(orig_move)
-    def move(sim, env, vehicle_id):
+    def move(sim, env, vehicle_id, *a, **k):
         frame = {"vid": vehicle_id, "before": sim.vehicles.get(vehicle_id), "sim_before": sim, "traverse": None, "oos": False}
         REC.stack.append(frame)
         try:
-            res = orig_move(sim, env, vehicle_id)
+            res = orig_move(sim, env, vehicle_id, *a, **k)
         finally:
             REC.stack.pop()
         err, out = res
@@ -139,10 +139,10 @@ def install_move_hooks():
         return res
 
     @functools.wraps(orig_oos)
-    def oos(sim, env, vehicle_id):
+    def oos(sim, env, vehicle_id, *a, **k):
         if REC.stack:
             REC.stack[-1]["oos"] = True
-        res = orig_oos(sim, env, vehicle_id)
+        res = orig_oos(sim, env, vehicle_id, *a, **k)
         REC.add("out_of_energy", {"vid": vehicle_id, "sim_before": sim, "result": res})
         return res
 
@@ -161,8 +161,8 @@ def install_charge_hook():
     orig = vso.charge
 
     @functools.wraps(orig)
-    def charge(sim, env, vehicle_id, station_id, charger_id):
-        res = orig(sim, env, vehicle_id, station_id, charger_id)
+    def charge(sim, env, vehicle_id, station_id, charger_id, *a, **k):
+        res = orig(sim, env, vehicle_id, station_id, charger_id, *a, **k)
         err, out = res
         REC.add(
             "charge",
@@ -193,8 +193,8 @@ def install_apply_hook():
     orig = sso.apply_instructions
 
     @functools.wraps(orig)
-    def apply_instructions(sim, env, instructions):
-        out = orig(sim, env, instructions)
+    def apply_instructions(sim, env, instructions, *a, **k):
+        out = orig(sim, env, instructions, *a, **k)
         REC.add("apply", {"before": sim, "instructions": tuple(instructions), "after": out})
         return out
 
@@ -273,8 +273,8 @@ def install_assignment_hook():
     orig = assignment_ops.find_assignment
 
     @functools.wraps(orig)
-    def find_assignment(assignees, targets, cost_fn):
-        res = orig(assignees, targets, cost_fn)
+    def find_assignment(assignees, targets, cost_fn, *a, **k):
+        res = orig(assignees, targets, cost_fn, *a, **k)
         REC.add("find_assignment", {"assignees": tuple(assignees), "targets": tuple(targets), "result": res})
         return res
 
@@ -292,8 +292,8 @@ def install_mechatronics_hooks():
 
     def mk_consume(orig):
         @functools.wraps(orig)
-        def w(self, vehicle, route):
-            out = orig(self, vehicle, route)
+        def w(self, vehicle, route, *a, **k):
+            out = orig(self, vehicle, route, *a, **k)
             REC.add("consume_energy", {"mech": self, "v0": vehicle, "route": route, "v1": out})
             return out
 
@@ -301,8 +301,8 @@ def install_mechatronics_hooks():
 
     def mk_idle(orig):
         @functools.wraps(orig)
-        def w(self, vehicle, time_seconds):
-            out = orig(self, vehicle, time_seconds)
+        def w(self, vehicle, time_seconds, *a, **k):
+            out = orig(self, vehicle, time_seconds, *a, **k)
             REC.add("idle", {"mech": self, "v0": vehicle, "dt": time_seconds, "v1": out})
             return out
 
@@ -310,8 +310,8 @@ def install_mechatronics_hooks():
 
     def mk_add(orig):
         @functools.wraps(orig)
-        def w(self, vehicle, charger, time_seconds):
-            out = orig(self, vehicle, charger, time_seconds)
+        def w(self, vehicle, charger, time_seconds, *a, **k):
+            out = orig(self, vehicle, charger, time_seconds, *a, **k)
             REC.add("add_energy", {"mech": self, "v0": vehicle, "charger": charger, "dt": time_seconds, "v1": out[0], "t_used": out[1]})
             return out
 
